@@ -235,6 +235,10 @@ def oracle_paxos(c, obs):
                                 node=i, step=k, value=st["dec_v"], proposed=sorted(proposed),
                                 what=f"node decided {st['dec_v']!r}, which no client proposed"))
             cur[i] = st["dec_v"]
+        for kk, rs in st["p1"]:
+            if len({r[0] for r in rs}) != len(rs):
+                out.append(dict(clause="phase-1 responses of a ballot come from distinct senders (hypothesis of c12_paxos_chosen_unique_partial)",
+                                node=i, step=k, ballot=kk, senders=[r[0] for r in rs]))
         for fid, v in st["resolved"]:
             if not st["decided"] or v != st["dec_v"]:
                 out.append(dict(clause="a proposer's future resolves with the decided value", node=i, step=k, fid=fid, value=v))
@@ -1082,7 +1086,7 @@ FAMILIES = [
            describe=lambda c: f"election {['bully', 'ring', 'randomized'][c['strat']]} n={len(c['members'])}"),
 ]
 
-COQ_FILES = ["C12/Model.v", "C12/PaxosNode.v", "C12/PaxosSys.v", "C12/LockModel.v", "C12/Lock.v", "C12/MultiModel.v", "C12/Multi.v", "C12/ElectionModel.v", "C12/Election.v", "C12/Props.v"]
+COQ_FILES = ["C12/Model.v", "C12/PaxosNode.v", "C12/PaxosSys.v", "C12/PaxosAgree.v", "C12/LockModel.v", "C12/Lock.v", "C12/MultiModel.v", "C12/Multi.v", "C12/ElectionModel.v", "C12/Election.v", "C12/Props.v"]
 
 TRUSTED = [
     "Coq 8.16.1 kernel (coqc, vm_compute for case evaluation); no native_compute; no axioms",
